@@ -43,6 +43,22 @@ def by_uid(uid, x):
     return x * x
 
 
+def kill_self_once(x, marker=None):
+    """input 2 kills the process that works on it, the first time only (SIGKILL: bare EOF on the results pipe, no end marker)"""
+    import signal
+    if x == 2:
+        try:
+            fd = os.open(marker, os.O_CREAT | os.O_EXCL | os.O_WRONLY)
+        except FileExistsError:
+            pass
+        else:
+            os.close(fd)
+            os.kill(os.getpid(), signal.SIGKILL)
+    if x:
+        time.sleep(0.2)
+    return x * x
+
+
 def scenario(sc):
     name = sc.get('name', 'late_result')
     out = {'scenario': sc}
@@ -144,6 +160,29 @@ def scenario(sc):
                         res['poolerror'] = True
                         res['partial'] = e.partial_results
                         res['alive_at_poolerror'] = [w.is_alive() for w in ws]
+            elif name == 'sigkill_owning_input':
+                # a process worker with one extra pending input delivers a result and is then SIGKILLed while it still owns an input; a slow callback
+                # makes the pool try to refill it (and find it dead while enqueueing) before it has read the EOF from its pipe
+                import tempfile
+                from pyworkers.worker import WorkerType
+                marker = os.path.join(tempfile.mkdtemp(prefix='c07kill'), 'killed-once')
+                seen = []
+
+                def cb(worker, event, *rest):
+                    seen.append((worker.userid, event))
+                    if event == 'finished' and worker.userid == 0 and seen.count((0, 'finished')) == 1:
+                        deadline = time.monotonic() + 10
+                        while worker.is_alive() and time.monotonic() < deadline:
+                            time.sleep(0.01)
+                p = Pool(kill_self_once, kwargs={'marker': marker})
+                try:
+                    for i in range(2):
+                        p.add_worker(WorkerType.PROCESS, userid=i)
+                    res['ret'] = p.run(iter(range(8)), worker_callback=cb, worker_extra_pending_inputs=1)
+                    res['expect'] = sorted(x * x for x in range(8))
+                finally:
+                    threading.Thread(target=lambda: p.terminate(timeout=2, force=True), daemon=True).start()
+                    time.sleep(0.5)
             elif name == 'dead_before_run_noretry':
                 handed = []
                 with Pool(sq, retry=False) as p:
@@ -172,10 +211,11 @@ def scenario(sc):
             res['exception'] = f'{type(e).__name__}: {e}'
     t = threading.Thread(target=body, daemon=True)
     t.start()
-    t.join(sc.get('watchdog', 8))
+    wd = sc.get('watchdog', 25 if name == 'sigkill_owning_input' else 8)
+    t.join(wd)
     viol = []
     if t.is_alive():
-        viol.append(f'Pool.run still running after {sc.get("watchdog", 8)} s' + (f' ({res.get("calls", [0])[0]} enqueue_fn calls)' if 'calls' in res else ''))
+        viol.append(f'Pool.run still running after {wd} s' + (f' ({res.get("calls", [0])[0]} enqueue_fn calls)' if 'calls' in res else ''))
     if 'exception' in res:
         viol.append('internal error escaped Pool.run: ' + res['exception'])
     if 'ret' in res and 'expect' in res and sorted(res['ret'] or []) != res['expect']:
@@ -190,7 +230,7 @@ def scenario(sc):
 
 def main():
     sc = json.loads(sys.argv[1])
-    names = [sc['name']] if sc.get('name') else ['late_result', 'refuse_livelock', 'refuse_orphan', 'dead_before_run_noretry', 'dead_first_worker', 'death_restart_death', 'enqueue_raises_once', 'plain']
+    names = [sc['name']] if sc.get('name') else ['late_result', 'refuse_livelock', 'refuse_orphan', 'dead_before_run_noretry', 'dead_first_worker', 'death_restart_death', 'sigkill_owning_input', 'enqueue_raises_once', 'plain']
     outs = []
     for n in names:
         o = scenario(dict(sc, name=n))
